@@ -55,7 +55,7 @@ def predicate(tr, rep):
 
 
 def run(ctx, rep):
-    _loop.run_all(ctx, rep, "C02", predicate, 6, 60, force=dict(iters=5))
+    _loop.run_all(ctx, rep, "C02", predicate, 30, 300, force=dict(iters=5))
 
 
 def replay(ctx, rp):
